@@ -386,9 +386,19 @@ func (st *Stepper) ServeParked() bool {
 	if len(parked) == 0 {
 		return false
 	}
+	// readers with the same entry label: those created by the parent with more parked children first (two
+	// worker pools running the same function, as in pre-parameter generation, differ in size but not in
+	// label, and goroutine ids of different parents are not ordered the same way at every GOMAXPROCS)
+	siblings := map[int64]int{}
+	for _, p := range parked {
+		siblings[p.parent]++
+	}
 	sort.SliceStable(parked, func(i, j int) bool {
 		if parked[i].entry != parked[j].entry {
 			return parked[i].entry < parked[j].entry
+		}
+		if si, sj := siblings[parked[i].parent], siblings[parked[j].parent]; si != sj {
+			return si > sj
 		}
 		return parked[i].goid < parked[j].goid
 	})
